@@ -108,6 +108,9 @@ def vtable(entries):
     return ",".join("%s:%s" % (hx(u), hx(p)) for u, p in entries) if entries else "-"
 
 
+ULEN = [1, 2, 3, 4, 5, 6, 7, 8, 8, 9, 10, 10, 10, 11, 12]     # the typed string accessor is exercised with a 10-byte buffer: lengths around it
+
+
 def gen_case(rng, i, kinds):
     kind = rng.choice(kinds)
     compat, flags = pick_cfg(rng)
@@ -118,6 +121,10 @@ def gen_case(rng, i, kinds):
         m = valid_msg(rng, compat, flags).raw()
         r = rng.random()
         b = m if r < 0.3 else m[:rng.randrange(len(m) + 1)] if r < 0.5 else mutate(rng, m) if r < 0.85 else bytes(rng.randrange(256) for _ in range(rng.randrange(0, 60)))
+        if rng.random() < 0.12:
+            # a lone attribute whose length field is within 3 of 65535 (padding would wrap a 16-bit sum), in a message of 4..12 attribute bytes
+            al = rng.choice([0xfffc, 0xfffd, 0xfffe, 0xffff, 0xfff9]); body = rng.choice([4, 8, 12])
+            b = m[:2] + struct.pack(">H", body) + m[4:20] + struct.pack(">HH", rng.choice([6, 0x8022, 0x20]), al) + bytes(body - 4)
         ops.append("VL %d %s" % (padded, hx(b)))
         parts = split(rng, b)
         if parts:
@@ -146,7 +153,7 @@ def gen_case(rng, i, kinds):
             ops.append("VF %d %d %d %d %s" % (padded, len(b), rng.randrange(2), len(parts), " ".join(hx(p) for p in parts)))
     elif kind in ("build", "roundtrip"):
         cap = rng.choice([0, 1, 19, 20, 21, 23, 24, 25, 27, 28, 32, 44, 48, 63, 64, 100, 200, 576, 1280, 2048, rng.randrange(0, 2049)])
-        user = bytes(rng.choice(b"abcdef:") for _ in range(rng.randrange(1, 9)))
+        user = bytes(rng.choice(b"abcdef:") for _ in range(rng.choice(ULEN)))
         key = bytes(rng.choice(b"pqrstu") for _ in range(rng.randrange(1, 9)))
         if rng.random() < 0.15:
             ops.append("SW %s" % hx(b"nice-verif"[:rng.randrange(1, 11)]))
@@ -179,9 +186,14 @@ def gen_case(rng, i, kinds):
         ops.append("F %s" % ("n" if kk is None else "e" if kk == b"" else hx(kk)))
         ops.append("V %s %x @" % (vtable([(user, key)]) if rng.random() < 0.9 else "n", rng.randrange(1, 0x30)))
     elif kind == "auth":
-        user = bytes(rng.choice(b"abcdef:") for _ in range(rng.randrange(1, 9)))
+        user = bytes(rng.choice(b"abcdef:") for _ in range(rng.choice(ULEN)))
         key = bytes(rng.choice(b"pqrstu") for _ in range(rng.randrange(1, 9)))
         realm = b"example.org" if flags & F_LONG or rng.random() < 0.2 else None
+        if flags & F_LONG and rng.random() < 0.3:
+            # quoting corner cases of the long-term credential trimming (priv_trim_var)
+            realm = rng.choice([b'"', b'""', b'"""', b'""""', b'"r"', b'"realm', b'realm"', b'"' * 7])
+            if rng.random() < 0.5:
+                user = rng.choice([b'"', b'""', b'"""', b'"u"', b'"' * 5, b'"ab:cd"'])
         cls = rng.choice([0, 0, 0, 1])
         m = valid_msg(rng, compat, flags, cls=cls, method=1, key=key, user=user, realm=realm, nattr=rng.randrange(0, 3))
         b = m.raw()
@@ -226,7 +238,7 @@ def gen_case(rng, i, kinds):
             ops.append("IR %d 300 %s" % (meth, hx(tx)))
             ops.append("AB 6 %s" % hx(user))
             if flags & F_LONG:
-                ops.append("AB 14 %s" % hx(b"realm")); ops.append("AB 15 %s" % hx(b"nonce"))
+                ops.append("AB 14 %s" % hx(rng.choice([b"realm", b"realm", b"realm2"]))); ops.append("AB 15 %s" % hx(b"nonce"))
             usekey = rng.random() < 0.85
             ops.append("F %s" % (hx(key) if usekey else "n"))
             txs.append((tx, meth, key if usekey else None))
@@ -236,6 +248,10 @@ def gen_case(rng, i, kinds):
             cls = rng.choice([2, 2, 3])
             if r < 0.15:
                 tx = rand_txid(rng)
+            elif r < 0.3:
+                tx = bytes(x ^ 0x5a for x in tx[:4]) + tx[4:]        # differs from an outstanding id in the first four bytes only
+            elif r < 0.36:
+                tx = tx[:15] + bytes([tx[15] ^ 1])
             if r > 0.9:
                 meth = meth + 1
             m = Msg(cls, meth, tx, compat, flags)
